@@ -91,6 +91,7 @@ PROP = [  # (subject fragment, property, also)
  ("select-list alias for another expression is not delivered from an index", "C02", ""),
  ("reach the user-defined indexes in the normalized form the table stores", "C15", "C02"),
  ("leaf is split when its entries no longer fit into one page", "C16", "C17"),
+ ("leaves are not merged (and entries not borrowed) when the result would not fit", "C17", "C16"),
  ("DROP COLUMN is refused when the rest of a multi-column UNIQUE constraint", "C33", "C10"),
  ("index-backed IN (subquery) shortcut checks the SELECT privilege", "C26", ""),
 ]
